@@ -22,7 +22,15 @@ import (
 	_ "verifharness/props"
 )
 
-const verifDir = "/verif"
+// verifDir is where evidence and known findings live. It is /verif unless a scratch lane
+// (tools/lane.sh: a copy of the harness working against a clone of the repository, used to run
+// seeded changes without touching /repo) overrides it.
+var verifDir = func() string {
+	if d := os.Getenv("VH_VERIF_DIR"); d != "" {
+		return d
+	}
+	return "/verif"
+}()
 
 func main() {
 	if len(os.Args) < 2 {
